@@ -16,6 +16,7 @@ MODEL_FILES = ['MaltModel/Rt/Policy.lean', 'MaltModel/Generated/Policy.lean', 'M
 CLS_FOREIGN_SELF = 'foreign_self_attribute'
 CLS_UNCACHEABLE = 'uncacheable_target'
 CLS_SHARED_OWNER = 'shared_function_owner_dependent_allowlist'
+CLS_NESTED_ASYNC = 'nested_async_def_converted'
 
 
 class InjectedFault(Exception):
@@ -559,6 +560,7 @@ def check(run):
         'declared by the recipe and cross-checked against the stdlib, not against malt',
         'frame-dependent builtins (dir, vars, exec, breakpoint, input, __import__) are outside the oracle: calling them through any wrapper changes the frame they see (C14 covers the overloads)',
         'Kind.other (the NotImplementedError branch) is unreachable in CPython: every object has type(f).__call__',
+        'a conversion that SUCCEEDS preserves the behaviour of the target (that is C01); C13 models a conversion as succeeding or failing',
     ]
     run.translate(['Policy'])
     built = run.build_and_audit('MaltModel.Props.C13', model_files=MODEL_FILES)
@@ -653,6 +655,7 @@ def _check(run, ins, tmp):
                         corpus.append(Case.from_json(cj))
         _run_cases(run, R, corpus + cases)
         _run_histories(run, R, hcorpus + gen_histories(run, bases + rule_bases))
+        _run_threads(run, R)
         _specials(run, R)
     finally:
         env.close()
@@ -898,6 +901,8 @@ def _run_cases(run, R, cases):
     for c in cases:
         b0 = zoo.build(c.base, R.env, [])
         fault = R.faults[c.fault_ix] if c.fault_ix is not None else None
+        if b0.soft and (fault is not None or c.strict):
+            continue    # undeclared (possible) failures: only the non-strict, fault-free contract is checked
         if fault is not None and (b0.facts['fail'] is not None or b0.facts['already_converted']):
             continue    # a natural failure would pre-empt the injected one; artifacts that convert internally are not the target
         try:
@@ -933,8 +938,14 @@ def _run_cases(run, R, cases):
         should_convert = not excl
         will_fail = should_convert and fail is not None
         cls_t = CLS_FOREIGN_SELF if (m and m['foreignSelf']) else None
-        strict_raise = will_fail and c.strict
         conv_seen = bool(obs['conv']) and all(obs['conv'])
+        if b.soft and should_convert and not conv_seen and obs['runs'] >= 1 and obs['attempts']:
+            fail = ('observed', 'other')     # the conversion was observed to fail: the fallback contract applies
+            will_fail = True
+        strict_raise = will_fail and c.strict
+        if c.base == 'nested_async' and conv_seen:
+            # the hypothesis "a conversion that succeeds preserves the target's behaviour" (C01) is what fails here
+            cls_t = CLS_NESTED_ASYNC
         if strict_raise:
             stats['strict_reraise'] += 1
             if obs['wrapped'][0] != 'exc' or obs['runs'] != 0:
@@ -980,7 +991,7 @@ def _run_cases(run, R, cases):
             else:
                 stats['skipped'] += 1
         # ---------------- correspondence
-        if m is None:
+        if m is None or b.soft:
             continue
         e = m['effect']
         d = []
@@ -1381,6 +1392,153 @@ def _run_histories(run, R, hists):
     if recs:
         h, slots, obs_list = recs[len(recs) // 3]
         run.sample({'history': h.to_json(), 'observed': [{k: o[k] for k in ('slot', 'status', 'opts', 'conv', 'attempts', 'warnings')} for o in obs_list]}, cap=8)
+
+
+# ------------------------------------------------------------------------------------------------ two-thread schedules
+
+def _run_threads(run, R):
+    """Prescribed interleavings of two threads: A enters a region (a ControlStatusCtx, or a do_not_convert call) and blocks;
+    B — a FRESH thread, so its context stack is created lazily — routes a target through converted_call in its own context;
+    A resumes, makes its own wrapped call inside its region and leaves.  Each verdict must be the single-thread verdict for
+    the calling thread's OWN context."""
+    import threading
+    from malt.impl import api
+    ins = R.ins
+    ST = {'unspecified': R.ag_ctx.Status.UNSPECIFIED, 'enabled': R.ag_ctx.Status.ENABLED, 'disabled': R.ag_ctx.Status.DISABLED}
+    a_regions = ['ctx:disabled', 'ctx:enabled', 'ctx:unspecified', 'dnc']
+    b_ctxs = ['default', 'unspecified', 'enabled', 'disabled']
+    targets = ['fn', 'bound', 'lambda', 'callobj', 'fn_mod:malt.c13fake', 'forelse']
+    reqs, recs = [], []
+    n = run.seed
+    for region in a_regions:
+        for bctx in b_ctxs:
+            for tb in targets:
+                n += 1
+                if run.tier == 'quick' and tb in ('lambda', 'callobj', 'forelse') and n % 2:
+                    continue
+                ins.reset(False)
+                cB = Case(tb, 0, 1 + n % 3, False, True, True, 'unspecified' if bctx == 'default' else bctx, False)
+                statusA = 'disabled' if region == 'dnc' else region.split(':')[1]
+                cA = Case('fn', 0, 1, False, True, True, statusA, False)
+                logB, logA = [], []
+                bB, fB, flavB, argsB, kwB = R.build(cB, logB)
+                bA, fA, flavA, argsA, kwA = R.build(cA, logA)
+                optsB, optsA = R.options(cB), R.options(cA)
+                entered, b_done = threading.Event(), threading.Event()
+                out = {}
+
+                def a_body():
+                    entered.set()
+                    if not b_done.wait(20):
+                        out['timeout'] = True
+                    m0 = ins.mark()
+                    out['A'] = invoke(lambda: api.converted_call(fA, argsA, kwA, options=optsA), bA.result_kind)[0]
+                    m1 = ins.mark()
+                    out['A_attempts'] = m1[0] - m0[0]
+
+                def thread_a():
+                    try:
+                        if region == 'dnc':
+                            api.do_not_convert(a_body)()
+                        else:
+                            with R.ag_ctx.ControlStatusCtx(ST[statusA]):
+                                a_body()
+                    except Exception as e:  # noqa
+                        out['A_exc'] = repr(e)
+                        entered.set()
+
+                def thread_b():
+                    try:
+                        if not entered.wait(20):
+                            out['timeout'] = True
+                        m0 = ins.mark()
+                        if bctx == 'default':
+                            out['B'] = invoke(lambda: api.converted_call(fB, argsB, kwB, options=optsB), bB.result_kind)[0]
+                        else:
+                            with R.ag_ctx.ControlStatusCtx(ST[bctx]):
+                                out['B'] = invoke(lambda: api.converted_call(fB, argsB, kwB, options=optsB), bB.result_kind)[0]
+                        m1 = ins.mark()
+                        out['B_attempts'] = m1[0] - m0[0]
+                        out['B_warnings'] = m1[1] - m0[1]
+                    except Exception as e:  # noqa
+                        out['B_exc'] = repr(e)
+                    finally:
+                        b_done.set()
+                ta, tb_ = threading.Thread(target=thread_a), threading.Thread(target=thread_b)
+                ta.start(); tb_.start(); ta.join(30); tb_.join(30)
+                if out.get('timeout') or ta.is_alive() or tb_.is_alive():
+                    raise common.InfraError('two-thread schedule timed out')
+                # direct twins
+                ld = []
+                bd, fd, _, ad, kd = R.build(cB, ld)
+                directB = invoke((lambda: fd(*ad)) if kd is None else (lambda: fd(*ad, **kd)), bd.result_kind)[0]
+                info = {'threads': True, 'A_region': region, 'B_context': bctx, 'B_target': tb, 'B_shape': cB.shape_ix,
+                        'B_outcome': out.get('B'), 'B_direct': directB, 'B_conv': conv_flags(logB), 'A_conv': conv_flags(logA),
+                        'errors': {k: v for k, v in out.items() if k.endswith('_exc')}}
+                run.case(('threads', region, bctx, tb), True)
+                if 'A_exc' in out or 'B_exc' in out:
+                    run.fail('threads: a thread failed outside the wrapped call: %s' % info['errors'], info, None)
+                    continue
+                if out['B'] != directB and not (out['B'][0] == 'exc' and directB[0] == 'exc' and out['B'][1] == directB[1]):
+                    run.fail('threads: B\'s wrapped call differs from the direct call: %s vs %s' % (str(out['B'])[:100], str(directB)[:100]), info, None)
+                exclB = R.exclusions(cB, bB, *real_levels_flav(fB, flavB))
+                wantB = (not exclB) and bB.facts['fail'] is None
+                convB = bool(conv_flags(logB)) and all(conv_flags(logB))
+                if bB.loggable and conv_flags(logB) and convB != wantB:
+                    run.fail('threads: thread B (own context %s) %s converted while thread A is inside %s; the verdict for B\'s OWN context is %s (exclusions %s)' %
+                             (bctx, 'was' if convB else 'was not', region, 'convert' if wantB else 'do not convert', exclB), info, None)
+                if exclB and out.get('B_attempts'):
+                    run.fail('threads: thread B attempted a conversion although its own context excludes it (%s)' % exclB, info, None)
+                if not exclB and not out.get('B_attempts'):
+                    run.fail('threads: thread B did not attempt the conversion due in its own context (A inside %s)' % region, info, None)
+                exclA = R.exclusions(cA, bA, *real_levels_flav(fA, flavA))
+                convA = bool(conv_flags(logA)) and all(conv_flags(logA))
+                if conv_flags(logA) and convA != (not exclA):
+                    run.fail('threads: thread A (inside %s) %s converted after thread B ran in context %s' % (region, 'was' if convA else 'was not', bctx), info, None)
+                # model: the schedule as events
+                def csx(c, b, f, flav):
+                    levels, _ = real_levels(f)
+                    req = R.model_request(c, b, levels, flav, (), None, None)
+                    return parse_sexp('(' + req.split(' ', 1)[1] + ')')[2]
+                mk = lambda args, kw: ([R.val(a) for a in args], 'none' if kw is None else [[k, R.val(v)] for k, v in kw.items()])  # noqa
+                evs = [['enter', 1, statusA]]
+                if bctx != 'default':
+                    evs.append(['enter', 2, bctx])
+                aB, kB = mk(argsB, kwB)
+                evs.append(['call', 2, False, [bool(optsB.user_requested), bool(optsB.internal_convert_user_code)], csx(cB, bB, fB, flavB), aB, kB])
+                if bctx != 'default':
+                    evs.append(['leave', 2])
+                aA, kA = mk(argsA, kwA)
+                evs.append(['call', 1, False, [bool(optsA.user_requested), bool(optsA.internal_convert_user_code)], csx(cA, bA, fA, flavA), aA, kA])
+                evs.append(['leave', 1])
+                reqs.append('c13.threads ' + sexp(evs))
+                recs.append((info, bB, convB, bool(out.get('B_attempts')), bool(out.get('B_warnings')), convA, bool(conv_flags(logB)), bool(conv_flags(logA))))
+    run.cov['two_thread_schedules'] = len(recs)
+    dis = []
+    if run.driver_ok and reqs:
+        for a, (info, bB, convB, attB, warnB, convA, ranB, ranA), req in zip(run.drive(reqs), recs, reqs):
+            if not a.startswith('('):
+                raise common.InfraError('driver rejected a threads request: ' + req[:300])
+            effs = parse_sexp(a)[1:]
+            eB, eA = effs[0], effs[1]
+            d = []
+            if bB.loggable and ranB and (eB[4] == 'True') != convB:
+                d.append('B converted: model %s, observed %s' % (eB[4], convB))
+            if (eB[5] == 'True') != attB:
+                d.append('B attempted: model %s, observed %s' % (eB[5], attB))
+            if (eB[6] == 'True') != warnB:
+                d.append('B warning: model %s, observed %s' % (eB[6], warnB))
+            if ranA and (eA[4] == 'True') != convA:
+                d.append('A converted: model %s, observed %s' % (eA[4], convA))
+            if d:
+                dis.append({'schedule': info, 'disagreements': d})
+        run.oblige('correspondence:c13.threads', 'correspondence', not dis, json.dumps(dis[:3], default=str))
+    else:
+        run.oblige('correspondence:c13.threads', 'correspondence', False, 'driver unavailable')
+
+
+def real_levels_flav(f, flav):
+    return real_levels(f)[0], flav
 
 
 # ------------------------------------------------------------------------------------------------ special builtins
